@@ -93,7 +93,13 @@ def rule_draw_order(ctx, crate, rule="R-DRAW-ORDER"):
         ctx.lost(rule, cfg, "emitter has no unique &mut VisualLines parameter")
         return
     # "successful returns" = blocks that store Ok(..) into the return slot
-    rets = sorted({i for i, j, s in b.assigns() if s["lhs"]["l"] == 0 and not s["lhs"]["p"] and s["rv"]["k"] == "agg"
+    to_ret = {0}
+    for _ in range(4):
+        for i, j, s in b.assigns():
+            if s["lhs"]["l"] in to_ret and not s["lhs"]["p"] and s["rv"]["k"] == "use" and operand_local(s["rv"]["op"]) is not None \
+                    and not s["rv"]["op"]["place"]["p"]:
+                to_ret.add(operand_local(s["rv"]["op"]))
+    rets = sorted({i for i, j, s in b.assigns() if s["lhs"]["l"] in to_ret and not s["lhs"]["p"] and s["rv"]["k"] == "agg"
                    and s["rv"].get("adt") == "std::result::Result" and s["rv"].get("variant") == "Ok"})
     ctx.floor(rule, len(rets), 2, cfg, "Ok(..) return sites in the emitter")
     panicking = b.calls(r"std::thread::panicking")
@@ -238,7 +244,7 @@ def rule_llc_writers(ctx, crate, rule="R-LLC-WRITERS"):
             ctx.check(ok, rule, "store:" + via, b.name, "%s:%d" % (b.file, s.get("line", 0)),
                       "last_line_count stored by the emitter / adjust_last_line_count",
                       "last_line_count is written outside the emitter and adjust_last_line_count", cfg)
-    ctx.floor(rule, n, 5, cfg, "stores to last_line_count")
+    ctx.floor(rule, n, 2, cfg, "stores to last_line_count")
     # callers of adjust_last_line_count
     nc = 0
     for c in crate.all_calls(r".*::adjust_last_line_count", bodies=K.lib_bodies(crate)):
@@ -350,15 +356,16 @@ def rule_force_bypass(ctx, crate, rule="R-FORCE-BYPASS"):
         if rv["k"] == "agg" and rv["ak"] == "closure" and rv["def"] in crate.bodies and crate.bodies[rv["def"]].calls(ALLOW):
             closure_sites.append((i, s))
     n = 0
+    R_forced, avoid_forced = K.bool_reach(b, fp, True)       # what can execute when force_draw is true
     for c in allow_sites:
         n += 1
-        ok = any(b.edge_dominates(e, c.bb) for e in fz)
+        ok = any(b.edge_dominates(e, c.bb) for e in fz) or c.bb not in R_forced
         ctx.check(ok, rule, "allow-under-not-forced#%d" % (n - 1), b.name, c.loc(),
                   "RateLimiter::allow is reachable only through the false edge of a switch on force_draw",
                   "RateLimiter::allow is consulted on a path where force_draw may be true (a forced draw can be dropped and consumes a token)", cfg)
     for i, s in closure_sites:
         n += 1
-        ok = any(b.edge_dominates(e, i) for e in fz)
+        ok = any(b.edge_dominates(e, i) for e in fz) or i not in R_forced
         ctx.check(ok, rule, "allow-closure-under-not-forced#%d" % (n - 1), b.name, "%s:%d" % (b.file, s.get("line", 0)),
                   "closure calling RateLimiter::allow is built only on the false edge of force_draw",
                   "a closure consulting the limiter is evaluated where force_draw may be true", cfg)
@@ -367,7 +374,7 @@ def rule_force_bypass(ctx, crate, rule="R-FORCE-BYPASS"):
     # was taken before. Check: blocks reachable from the force-true target construct a Drawable on all paths.
     cons_blocks = {i for (cb, i, j, s) in K.constructions(crate, K.DRAWABLE) if cb.name == b.name}
     for (sb, tgt) in fe:
-        ok = b.must_pass([tgt], cons_blocks)
+        ok = b.must_pass([tgt], cons_blocks) or not (set(b.reach([tgt], avoid=cons_blocks, avoid_edges=avoid_forced)) & set(b.return_blocks()))
         ctx.check(ok, rule, "forced-constructs", b.name, "%s:%d" % (b.file, b.term(sb).get("line", 0)),
                   "from the force_draw-true edge every path to the return constructs a Drawable",
                   "a forced draw can still end without a Drawable", cfg)
